@@ -252,12 +252,13 @@ end LM
 
 /-! ## SciPy wrappers: what is copied from SciPy's result into `(solution, info)` -/
 
-/-- fields of a SciPy `OptimizeResult` that the wrappers read -/
+/-- fields of a SciPy `OptimizeResult` that the wrappers read.  `jac` and `nit` are not reported by every
+    method (Nelder-Mead, Powell, COBYLA have no `jac`; COBYLA has no `nit`): absent = `none` -/
 structure SciRes (X F G : Type) where
   x : X
   fn : F
-  jac : G
-  nit : Nat
+  jac : Option G
+  nit : Option Nat
   nfev : Nat
   success : Bool
   message : String
@@ -267,12 +268,13 @@ structure Info (F G : Type) where
   success : Bool
   message : String
   func : F
-  grad : G
-  nit : Nat
+  grad : Option G
+  nit : Option Nat
   nfev : Nat
   deriving DecidableEq
 
-/-- `minimize.solve`: `(solution['x'], {success, message, func: fun, grad: jac, nit, nfev})` -/
+/-- `minimize.solve`: `(solution['x'], {success, message, func: fun, grad: solution.get('jac', None),
+    nit: solution.get('nit', None), nfev})` — a field SciPy does not report is `None`, nothing raises -/
 def wrapMinimize {X F G : Type} (res : SciRes X F G) : X × Info F G :=
   (res.x, { success := res.success, message := res.message, func := res.fn, grad := res.jac,
             nit := res.nit, nfev := res.nfev })
